@@ -351,7 +351,7 @@ func (cmd *mainCmd) Run(args []string) error {
 			cmd.printComments(sourcePath.Provided, comments)
 			_, err = cmd.Stdout.Write(bs)
 		default:
-			err = os.WriteFile(filename, bs, 0o644)
+			err = writeFileAtomic(filename, bs)
 		}
 		vhook.Event("emit", "file", filename, "diff", opts.Diff, "print", opts.Print, "ok", err == nil)
 		if err != nil {
@@ -365,6 +365,43 @@ func (cmd *mainCmd) Run(args []string) error {
 	errors = append(errors, patchRunner.errors...)
 	vhook.Event("done", "errors", len(errors))
 	return multierr.Combine(errors...)
+}
+
+// writeFileAtomic replaces the contents of filename with content.
+//
+// The new bytes are written to a temporary file in the same directory which
+// is then renamed over the original, so that a failed or interrupted write
+// never leaves a truncated or partially written file behind.
+func writeFileAtomic(filename string, content []byte) (err error) {
+	mode := os.FileMode(0o644)
+	if info, statErr := os.Stat(filename); statErr == nil {
+		mode = info.Mode().Perm()
+	}
+
+	f, err := os.CreateTemp(filepath.Dir(filename), ".gopatch-*.tmp")
+	if err != nil {
+		return fmt.Errorf("write %q: %w", filename, err)
+	}
+	tmp := f.Name()
+	defer func() {
+		if err != nil {
+			_ = os.Remove(tmp)
+			err = fmt.Errorf("write %q: %w", filename, err)
+		}
+	}()
+
+	if _, err = f.Write(content); err != nil {
+		_ = f.Close()
+		return err
+	}
+	if err = f.Chmod(mode); err != nil {
+		_ = f.Close()
+		return err
+	}
+	if err = f.Close(); err != nil {
+		return err
+	}
+	return os.Rename(tmp, filename)
 }
 
 func checkGeneratedCode(f *ast.File) bool {
